@@ -191,7 +191,7 @@ class Effects:
                 rt = sc.ty(fn.value)
                 ck = container_kind(self.an, rt)
                 path = P.of(fn.value)
-                if ck is not None and n.callee.kind != "pkg":
+                if ck is not None:
                     kind = _METHOD_EFFECT.get((ck, fn.attr))
                     if kind is not None and path is not None:
                         out.append(Effect(n, path, kind, ck, fn.attr))
